@@ -300,13 +300,13 @@ def call_forms(rep):
     import collections.abc as cabc, typing
     capture.install(); capture.drain()
     RET = {'coro': ['int', 'None', 'NoReturn', 'Never', 'Coroutine[None, None, int]', 'Coroutine[None, None, NoReturn]', 'list[int]', 'object', ''],
-           'gen': ['Generator[int, None, None]', 'Iterator[int]', 'Iterable[int]'], 'plain': ['int', 'NoReturn', 'None', 'list[int]', '']}
-    ns = dict(vars(typing)); ns.update(Generator=cabc.Generator, Iterator=cabc.Iterator, Iterable=cabc.Iterable, Coroutine=cabc.Coroutine)
+           'gen': ['Generator[int, None, None]', 'Iterator[int]', 'Iterable[int]', '', 'object', 'Any'], 'agen': ['AsyncGenerator[int, None]', 'AsyncIterator[int]', '', 'object'], 'plain': ['int', 'NoReturn', 'None', 'list[int]', '']}
+    ns = dict(vars(typing)); ns.update(Generator=cabc.Generator, Iterator=cabc.Iterator, Iterable=cabc.Iterable, Coroutine=cabc.Coroutine, AsyncGenerator=cabc.AsyncGenerator, AsyncIterator=cabc.AsyncIterator)
     n = 0
     for kind, rets in RET.items():
         for r in rets:
             ann = f' -> {r}' if r else ''
-            src = {'coro': f'async def f(x: int){ann}:\n    raise ValueError(x)\n', 'gen': f'def f(x: int){ann}:\n    yield x\n', 'plain': f'def f(x: int){ann}:\n    raise ValueError(x)\n'}[kind]
+            src = {'coro': f'async def f(x: int){ann}:\n    raise ValueError(x)\n', 'gen': f'def f(x: int){ann}:\n    yield x\n', 'agen': f'async def f(x: int){ann}:\n    yield x\n', 'plain': f'def f(x: int){ann}:\n    raise ValueError(x)\n'}[kind]
             d = dict(ns)
             try:
                 exec(src, d); capture.drain(); beartype(d['f']); caps = capture.drain()
@@ -321,7 +321,7 @@ def call_forms(rep):
             def form(c):
                 p1 = parents.get(id(c))
                 return 'await' if isinstance(p1, ast.Await) else 'yield from' if isinstance(p1, ast.YieldFrom) else 'plain'
-            want = {'coro': 'await', 'gen': 'yield from', 'plain': 'plain'}[kind]
+            want = {'coro': 'await', 'gen': 'yield from', 'plain': 'plain', 'agen': 'plain'}[kind]
             if kind == 'gen':
                 # the generator object is created by one plain call (and checked shallowly), then delegated to as a whole by `yield from`
                 yf = [y for y in ast.walk(fn) if isinstance(y, ast.YieldFrom)]
@@ -329,7 +329,13 @@ def call_forms(rep):
                 ok = len(calls) == 1 and len(yf) == 1 and ((isinstance(yf[0].value, ast.Name) and yf[0].value.id in assigned) or yf[0].value in calls) and not isinstance(fn, ast.AsyncFunctionDef)
                 want = 'one plain call delegated by `yield from`'
             else:
-                ok = bool(calls) and all(form(c) == want for c in calls) and isinstance(fn, ast.AsyncFunctionDef) == (kind == 'coro')
+                ok = bool(calls) and all(form(c) == want for c in calls) and isinstance(fn, ast.AsyncFunctionDef) == (kind in ('coro', 'agen'))
+            # whatever the kind and the return hint: the original receives exactly what the caller passed - `*args, **kwargs`, both, nothing else
+            fwd = all(len(c.args) == 1 and isinstance(c.args[0], ast.Starred) and isinstance(c.args[0].value, ast.Name) and c.args[0].value.id == 'args'
+                      and len(c.keywords) == 1 and c.keywords[0].arg is None and isinstance(c.keywords[0].value, ast.Name) and c.keywords[0].value.id == 'kwargs' for c in calls)
+            n += 1
+            rep.add(f'C08.call_args[{kind}{ann or " (no return hint)"}]', 'proved' if (calls and fwd) else 'refuted', backend='structural',
+                    where=f'every call of the original in the captured wrapper is __beartype_func(*args, **kwargs): {[ast.unparse(c)[:60] for c in calls]}', solver_output='resolved on the AST of the captured wrapper text')
             n += 1
             rep.add(f'C08.call_form[{kind}{ann or " (no return hint)"}]', 'proved' if ok else 'refuted', backend='structural',
                     where=f'{len(calls)} call(s) of the original in the captured wrapper, forms {[form(c) for c in calls]}, expected `{want}`', solver_output='resolved on the AST of the captured wrapper text')
